@@ -35,6 +35,8 @@ fn run_case(fam: i64, case: &[Vec<Tok>]) -> Vec<Vec<Tok>> {
 }
 
 fn main() {
+    // panics are counted and reported in the output, not printed
+    fam_srv::install_panic_hook();
     let args: Vec<String> = std::env::args().collect();
     let fam: i64 = args[1].parse().expect("family code");
     let f = std::fs::File::open(&args[2]).expect("case file");
